@@ -82,3 +82,6 @@ func VerifGenerateVersionConfig(v int, openTracing bool) ([]byte, error) {
 	}
 	return g.GenerateVersionConfig(v, openTracing)
 }
+
+// VerifBumpVersion is what a successful Reload does to the counter (the reload itself needs NGINX).
+func (lm *LocalManager) VerifBumpVersion() { lm.configVersion++ }
